@@ -901,7 +901,7 @@ Proof.
   intros Hwf Hk. destruct (wf_hunk_parts a Hwf) as (Hctx & Hon & Hmn & Hb & He).
   unfold open_fragment. split; [exact Hctx|].
   rewrite <- (firstn_skipn k (a_body a)) in Hb, He. unfold a_on, a_mn in Hon, Hmn.
-  rewrite <- (firstn_skipn k (a_body a)) in Hon at 2. rewrite <- (firstn_skipn k (a_body a)) in Hmn at 2.
+  rewrite <- (firstn_skipn k (a_body a)) in Hon, Hmn.
   rewrite forallb_app in Hb. apply andb_true_iff in Hb as [Hb1 _]. split; [exact Hb1|].
   rewrite Hon, Hmn, !countb_app.
   destruct (list_last_case (skipn k (a_body a))) as [E|(pre & b & E)].
@@ -1024,7 +1024,7 @@ Proof.
       * left. exists hs, n, d, i. split; [exact E|lia].
       * right. exists l', n, e. repeat split; auto; lia.
     + left. do 4 eexists. split; [reflexivity|lia].
-    + right. exists l, (Z.of_nat (List.length pre) + 1), false. repeat split; try lia; [|discriminate].
+    + right. exists l, (Z.of_nat (List.length pre) + 1), false. repeat split; try lia; try discriminate.
       replace (Z.to_nat (Z.of_nat (List.length pre) + 1 - 1)) with (List.length pre + 0)%nat by lia.
       rewrite nth_error_app2 by lia. replace (List.length pre + 0 - List.length pre)%nat with 0%nat by lia. reflexivity.
 Qed.
@@ -1043,3 +1043,142 @@ Qed.
 
 Theorem C14_empty : forall ig, get_unified_diff_hunks [] ig = HunksOk [] 0 0 0.
 Proof. reflexivity. Qed.
+
+(* ================================================================================================ *)
+(** * Corollaries in terms of hunk ASTs *)
+
+Theorem match_hunk_header_render_header (a : hunk_ast) : wf_hunk a ->
+  match_hunk_header (render_header a) =
+  Some (Z.of_N (a_os a), (if a_on_omit a then None else Some (Z.of_nat (a_on a))),
+        Z.of_N (a_ms a), (if a_mn_omit a then None else Some (Z.of_nat (a_mn a))), a_ctx a).
+Proof.
+  intros Hwf. destruct (wf_hunk_parts a Hwf) as (Hctx & _).
+  unfold render_header. rewrite match_hunk_header_render_hdr by exact Hctx.
+  cbn [hdr_of hd_os hd_on hd_ms hd_mn hd_ctx].
+  destruct (a_on_omit a), (a_mn_omit a); cbn [option_map]; repeat f_equal; lia.
+Qed.
+
+(** a well-formed hunk cut short anywhere (header alone, or header and a proper prefix of its body) *)
+Theorem C14_damage_truncated : forall (ig : bool) (hs : list hunk_ast) (seps : list (list bytes)) (a : hunk_ast) (k : nat),
+  Forall wf_hunk hs -> List.length seps = S (List.length hs) -> seps_ok ig seps ->
+  wf_hunk a -> (k < List.length (a_body a))%nat ->
+  let lines := interleave seps (map render_hunk hs) ++ firstn (S k) (render_hunk a) in
+  get_unified_diff_hunks lines ig = Malformed (last lines []) (Z.of_nat (List.length lines)) true.
+Proof.
+  intros ig hs seps a k Hwf Hlen Hseps Ha Hk lines.
+  pose proof (damage_eof ig hs seps Hwf Hlen Hseps (hdr_of a) (firstn k (a_body a)) (wf_prefix_open a k Ha Hk)) as H.
+  unfold lines.
+  change (firstn (S k) (render_hunk a)) with (render_header a :: firstn k (map render_line (a_body a))).
+  rewrite firstn_map.
+  change (render_header a :: map render_line (firstn k (a_body a))) with (render_open (hdr_of a) (firstn k (a_body a))).
+  rewrite H. f_equal. rewrite last_app_default. unfold render_open. rewrite !last_cons_default. reflexivity.
+Qed.
+
+(* ================================================================================================ *)
+(** * Examples: the hypotheses are satisfiable, and the model computes the spec geometry *)
+
+Definition ex_marker : bytes := B "\ No newline at end of file".
+Definition ex_h1 : hunk_ast :=
+  {| a_os := 1; a_on_omit := false; a_ms := 1; a_mn_omit := false; a_ctx := Some (B "def f():");
+     a_body := [Ctx (B "a"); Del (B "b"); Marker ex_marker; Ins (B "B")] |}.
+Definition ex_h2 : hunk_ast :=
+  {| a_os := 10; a_on_omit := true; a_ms := 12; a_mn_omit := false; a_ctx := None;
+     a_body := [Del (B "--- x"); Ins (B "+++ y"); Ins (B "@@ -1 +1 @@")] |}.
+Definition ex_h0 : hunk_ast :=   (* empty body: complete on its header line *)
+  {| a_os := 0; a_on_omit := false; a_ms := 0; a_mn_omit := false; a_ctx := None; a_body := [] |}.
+Definition ex_hs : list hunk_ast := [ex_h1; ex_h2; ex_h0].
+Definition ex_seps : list (list bytes) :=
+  [[B "diff --git a b"; B "--- a"; B "+++ b"]; [B "@@ not a header"]; []; [ex_marker]].
+Definition ex_lines : list bytes := interleave ex_seps (map render_hunk ex_hs).
+
+Example ex_wf : Forall wf_hunk ex_hs.
+Proof. repeat constructor. Qed.
+Example ex_seps_non_header : Forall (Forall non_header) ex_seps.
+Proof. repeat constructor. Qed.
+Example ex_lines_text :
+  ex_lines = [B "diff --git a b"; B "--- a"; B "+++ b";
+              B "@@ -1,2 +1,2 @@ def f():"; B " a"; B "-b"; B "\ No newline at end of file"; B "+B";
+              B "@@ not a header";
+              B "@@ -10 +12,2 @@"; B "---- x"; B "++++ y"; B "+@@ -1 +1 @@";
+              B "@@ -0,0 +0,0 @@";
+              B "\ No newline at end of file"].
+Proof. vm_compute. reflexivity. Qed.
+
+Example ex_tolerant_computed :
+  get_unified_diff_hunks ex_lines true = HunksOk (map spec_geometry ex_hs) 15 2 3.
+Proof. vm_compute. reflexivity. Qed.
+Example ex_tolerant_by_theorem :
+  get_unified_diff_hunks ex_lines true =
+  HunksOk (map spec_geometry ex_hs) (Z.of_nat (List.length ex_lines)) (Z.of_nat (total_del ex_hs)) (Z.of_nat (total_ins ex_hs)).
+Proof. apply C14_tolerant_thm; [exact ex_wf | reflexivity | exact ex_seps_non_header]. Qed.
+
+Example ex_geometry :
+  map spec_geometry ex_hs =
+  [ {| h_context := Some (B "def f():");
+       h_orig := {| sd_first := Some 1; sd_last := Some 1; sd_num := 2; sd_changed := 1; sd_start := 0 |};
+       h_mod := {| sd_first := Some 1; sd_last := Some 1; sd_num := 2; sd_changed := 1; sd_start := 0 |};
+       h_pre := 1; h_post := 0 |};
+    {| h_context := None;
+       h_orig := {| sd_first := Some 9; sd_last := Some 9; sd_num := 1; sd_changed := 1; sd_start := 9 |};
+       h_mod := {| sd_first := Some 11; sd_last := Some 12; sd_num := 2; sd_changed := 2; sd_start := 11 |};
+       h_pre := 0; h_post := 0 |};
+    {| h_context := None;
+       h_orig := {| sd_first := None; sd_last := None; sd_num := 0; sd_changed := 0; sd_start := -1 |};
+       h_mod := {| sd_first := None; sd_last := None; sd_num := 0; sd_changed := 0; sd_start := -1 |};
+       h_pre := 0; h_post := 0 |} ].
+Proof. vm_compute. reflexivity. Qed.
+
+(** strict mode: the two hunks, then a separator stops the parse after 9 lines *)
+Example ex_strict_computed :
+  get_unified_diff_hunks (concat (map render_hunk [ex_h1; ex_h2]) ++ [B "@@ not a header"; B "@@ -1 +1 @@"]) false =
+  HunksOk (map spec_geometry [ex_h1; ex_h2]) 9 2 3.
+Proof. vm_compute. reflexivity. Qed.
+Example ex_strict_by_theorem :
+  get_unified_diff_hunks (concat (map render_hunk [ex_h1; ex_h2]) ++ [B "@@ not a header"; B "@@ -1 +1 @@"]) false =
+  HunksOk (map spec_geometry [ex_h1; ex_h2]) 9 (Z.of_nat (total_del [ex_h1; ex_h2])) (Z.of_nat (total_ins [ex_h1; ex_h2])).
+Proof.
+  apply (C14_strict_thm [ex_h1; ex_h2]); [repeat constructor|].
+  right. do 2 eexists. split; reflexivity.
+Qed.
+
+(** damage: hunk 2 cut after its first body line / followed by a bad line / by a header *)
+Example ex_open : open_fragment (hdr_of ex_h2) [Del (B "--- x")].
+Proof. repeat split. right. vm_compute. reflexivity. Qed.
+Example ex_seps_ok_tolerant : seps_ok true [[B "--- a"]; [B "@@ not a header"]].
+Proof. repeat constructor; discriminate. Qed.
+Example ex_damage_eof :
+  get_unified_diff_hunks ([B "--- a"] ++ render_hunk ex_h1 ++ [B "@@ not a header"] ++ [B "@@ -10 +12,2 @@"; B "---- x"]) true
+  = Malformed (B "---- x") 9 true.
+Proof. vm_compute. reflexivity. Qed.
+Example ex_damage_garbage :
+  get_unified_diff_hunks (render_hunk ex_h1 ++ [B "@@ -10 +12,2 @@"; B "---- x"; B "oops"; B "+y"]) false
+  = Malformed (B "oops") 8 false.
+Proof. vm_compute. reflexivity. Qed.
+Example ex_damage_header :
+  get_unified_diff_hunks (render_hunk ex_h1 ++ [B "@@ -10 +12,2 @@"; B "---- x"; B "@@ -20 +22 @@ ctx"; B "+y"]) false
+  = Malformed (B "@@ -20 +22 @@ ctx") 8 false.
+Proof. vm_compute. reflexivity. Qed.
+Example ex_damage_by_theorem :
+  get_unified_diff_hunks (interleave [[B "--- a"]; [B "@@ not a header"]] (map render_hunk [ex_h1])
+                          ++ render_open (hdr_of ex_h2) [Del (B "--- x")]) true
+  = Malformed (B "---- x") 9 true.
+Proof.
+  refine (proj1 (C14_damage_thm true [ex_h1] [[B "--- a"]; [B "@@ not a header"]] (hdr_of ex_h2) [Del (B "--- x")] _ _ _ _)).
+  - repeat constructor.
+  - reflexivity.
+  - exact ex_seps_ok_tolerant.
+  - exact ex_open.
+Qed.
+
+(** strict mode, both cases spelled out *)
+Theorem C14_strict_both : forall (hs : list hunk_ast), Forall wf_hunk hs ->
+  let body := concat (map render_hunk hs) in
+  let result := HunksOk (map spec_geometry hs) (Z.of_nat (List.length body))
+                        (Z.of_nat (total_del hs)) (Z.of_nat (total_ins hs)) in
+  get_unified_diff_hunks body false = result
+  /\ (forall (g : bytes) (rest : list bytes), non_header g -> get_unified_diff_hunks (body ++ g :: rest) false = result).
+Proof.
+  intros hs Hwf body result. split.
+  - rewrite <- (app_nil_r body). apply C14_strict_thm; auto.
+  - intros g rest Hg. apply C14_strict_thm; eauto.
+Qed.
